@@ -5,6 +5,7 @@ use std::io::{self, BufRead, Write};
 
 mod alloc;
 mod cell;
+mod expr;
 mod svec;
 mod tape;
 mod dump;
@@ -27,10 +28,12 @@ fn main() {
         let res = match fields[0] {
             "cell" => cell::run(&fields[1..]),
             "tape" => tape::run(&fields[1..]),
+            "expr" => expr::run(&fields[1..]),
             "svec" => svec::run(&fields[1..]),
             "tapefail" => tape::run_fail(&fields[1..]),
             "run" => run::run(&fields[1..]),
             "runfail" => run::runfail(&fields[1..]),
+            "rung" => run::rung(&fields[1..]),
             "runs" => run::runs(&fields[1..]),
             "dumpir" => run::dumpir(&fields[1..]),
             "dumpbc" => run::dumpbc(&fields[1..]),
